@@ -43,3 +43,6 @@ Proof.
   intros H. unfold is_scalar. destruct (N.ltb_spec v 55296); [|lia]. cbn [orb andb].
   apply N.leb_le. lia.
 Qed.
+
+Lemma removelast_map {A B} (f : A -> B) l : removelast (map f l) = map f (removelast l).
+Proof. induction l as [|x [|y l] IH]; [reflexivity|reflexivity|]. cbn [map removelast] in *. rewrite IH. reflexivity. Qed.
